@@ -89,6 +89,18 @@ Theorem C07_exactly_one_operation : forall sc, In sc (List.concat all_sector_cer
 Proof. exact sector_unique_operation. Qed.
 Print Assumptions C07_exactly_one_operation.
 
+(* ALL SYMMETRY-EQUIVALENT DIRECTIONS HAVE THE SAME REPRESENTATIVE OFF THE BOUNDARY: if an operation r maps x, and an
+   operation s maps the equivalent direction g * x, strictly inside the sector, the two images coincide -- for ANY rule
+   that picks r and s (in particular for the projection, whose result is such an image by C07_projection_is_group_image,
+   whenever it lands strictly inside) *)
+Theorem C07_equivalents_have_one_representative : forall sc, In sc (List.concat all_sector_certs) ->
+  forall (x : vec3 (T:=R)) g r s, In g (sc_ops sc) -> In r (sc_ops sc) -> In s (sc_ops sc) ->
+  (forall n, In n (sc_N sc) -> 0 < vdot ROps (vtoR n) (ract ROps (rtoR r) x)) ->
+  (forall n, In n (sc_N sc) -> 0 < vdot ROps (vtoR n) (ract ROps (rtoR s) (ract ROps (rtoR g) x))) ->
+  ract ROps (rtoR s) (ract ROps (rtoR g) x) = ract ROps (rtoR r) x.
+Proof. exact sector_representative_unique. Qed.
+Print Assumptions C07_equivalents_have_one_representative.
+
 Theorem C07_sector_first_operation_is_identity : forall sc, In sc (List.concat all_sector_certs) ->
   exists r rest, sc_ops sc = r :: rest /\ rtoR r = (qone ROps, false).
 Proof. exact sector_identity_first. Qed.
